@@ -1079,26 +1079,34 @@ def _lib_common(ctx, pym, build, x, kw, rng, linear, wrongf, name):
     recs = []
     n = len(x)
     if linear:
-        # exact columns of the linear map (t = 1) and the magnitude assembly  sum_e |x_e| |K_e|
+        # exact columns of the linear map (t = 1) and the magnitude assembly  sum_e |x_e| |K_e|.  The columns are kept as coordinate
+        # lists of their non-zero entries (64 per element of a stiffness matrix): as dense arrays, 729 columns of a 1568 x 1568 output
+        # are 14 GB
         cols = []
+        kmag = np.zeros(np.shape(y0), dtype=float)
         for i in range(n):
             e = x.copy()
             e[i] += 1.0
-            cols.append(f(e) - y0)
-        kmag = sum(abs(x[i]) * np.abs(cols[i]) for i in range(n))
+            dcol = f(e) - y0
+            idx = np.nonzero(dcol)
+            val = np.asarray(dcol[idx])
+            cols.append((idx, val))
+            kmag[idx] += abs(x[i]) * np.abs(val)
+            del dcol
     ymag = float(np.sum(np.abs(W) * (kmag if linear else np.abs(y0))))
     for i in range(n):
         if kz and x[i] == 0:
             continue
         h = dx * abs(x[i]) if (kw.get("relative_dx") and x[i] != 0) else dx
         if linear:
-            D = float(np.sum(W * cols[i]))
+            idx, val = cols[i]
+            Wd = np.asarray(W[idx]) if np.ndim(W) else np.full(val.shape, W)
+            D = float(np.sum(Wd * val))
             trunc = 0.0
             # rounding of the difference quotient: only the output entries that change with x_i contribute (an entry that does not
             # depend on x_i is bit-identical in both evaluations and cancels exactly in sum(W*(y(x+h) - y(x)))); each assembled entry is
             # a sum of at most 8 element contributions
-            dep = cols[i] != 0
-            sc = float(np.sum((np.abs(W) * (kmag + (1 + h) * np.abs(cols[i])))[dep]))
+            sc = float(np.sum(np.abs(Wd) * (kmag[idx] + (1 + h) * np.abs(val))))
             rnd = 32 * 16 * M.EPS * sc / h + 4 * 16 * M.EPS * sc
         else:
             ep, em = x.copy(), x.copy()
